@@ -17,9 +17,12 @@ ERRC = {'AnalyticalFeatureError': 'AFError', 'KeyError': 'KeyError', 'TypeError'
 def gen_history(rng, depth, with_expr=True):
     n = rng.randint(1, 4)
     ops = []
+    created = []
     for _ in range(depth):
         k = rng.choice(['C', 'C', 'R', 'D', 'L', 'U', 'I', 'I', 'O', 'F', 'E', 'E'] if with_expr else ['C', 'C', 'R', 'D', 'L', 'U', 'I', 'I', 'O', 'F'])
         nm = rng.choice(NAMES)
+        if k in ('C', 'L', 'U', 'I', 'F') and nm not in ('x', 'y', 'idx', 't'):
+            created.append(nm)
         val = lambda: rng.choice([0, 1, 2, 3, -1, 0.5, 4])
         init = ['s', val()] if rng.random() < 0.5 else ['l', [val() for _ in range(n)]]
         if k == 'C':
@@ -41,7 +44,11 @@ def gen_history(rng, depth, with_expr=True):
         else:
             # an expression over the names currently plausible; assignment or not
             tree = C02.gen_tree(rng, rng.randint(1, 2))
-            names_in = [x for x in ['a', 'b', 'c', 's', 'x', 'y', 'idx'] if True]
+            # mostly names that an earlier operation of this history tried to create: an expression over a missing name only raises
+            names_in = (created * 3 + ['x', 'y', 'idx']) if created and rng.random() < 0.8 else ['a', 'b', 'c', 's', 'x', 'y', 'idx']
+            if created and rng.random() < 0.3:            # the scalar forms: number op feature and feature op number each have their own operator class
+                f = ['name', rng.choice(created)]; l = ['lit', rng.choice(['2', '3', '0.5', '8'])]
+                tree = ['bin', rng.choice(['/', '/', '-', '*', '+', '^']), l, f] if rng.random() < 0.6 else ['bin', rng.choice(['/', '-', '*', '+']), f, l]
             def rename(e):
                 if e[0] == 'name':
                     return ['name', rng.choice(names_in)]
